@@ -27,8 +27,10 @@ def convert(raw, sid):
         target["status"] = {"phase": t0["st"]}
     owner = [{"uid": "p1", "kind": kind, "name": "p", "ctrl": True}]
 
-    def att(name, marker):
-        o = {"res": "things", "name": name, "uid": "c-" + name, "labels": {"app": "x"}, "spec": {"f1": "v1"}, "owners": owner}
+    def att(name, marker, ctrl=True):
+        own = owner if ctrl else [{"uid": "p1", "kind": kind, "name": "p", "ctrl": False},
+                                  {"uid": "f9", "kind": "Other", "name": "other", "av": "other.example/v1", "ctrl": True}]
+        o = {"res": "things", "name": name, "uid": "c-" + name, "labels": {"app": "x"}, "spec": {"f1": "v1"}, "owners": own}
         if marker:
             o["ann"] = {MARKER: marker}
             o["la"] = {"f1": "v1"}
@@ -36,7 +38,8 @@ def convert(raw, sid):
             o["laAnn"] = {MARKER: marker}
         return o
 
-    objs = [target, att("mine", "dc"), att("theirs", "other-dc"), att("plain", None)]
+    # handedover: carries our marker and still lists the target as a plain owner, but is controlled by somebody else now
+    objs = [target, att("mine", "dc"), att("theirs", "other-dc"), att("plain", None), att("handedover", "dc", ctrl=False)]
     sync = {"prog": "const", "children": [{"res": "things", "name": "mine", "labels": {"app": "x"}, "spec": {"f1": "v1"}}]}
     if ans["lab"] != "unnamed":
         sync["setLabels"] = {"k": "<null>" if ans["lab"] == "null" else ans["lab"]}
